@@ -6,7 +6,7 @@
    plus the checkers the run-time tie evaluates on the implementation's outputs.
    Definitions only - no proofs. *)
 From Coq Require Import ZArith List Bool String.
-Require Export UV.C01.Isa UV.C01.ArchCtx UV.C01.Machine UV.C01.Shadow.
+Require Export UV.C01.Isa UV.C01.ArchCtx UV.C01.Machine UV.C01.Shadow UV.C01.Life.
 Require Import UV.Gen.Stubs.
 Import ListNotations.
 Local Open Scope Z_scope.
@@ -158,6 +158,52 @@ Definition sched_ok (c : sched_case) : bool :=
                        (proj (fst tc) (combine (map fst (sd_sched c)) (map (fun o => fst (fst o)) (sd_obs c)))))
           (sd_trees c)
   && forallb (fun b => b) (sd_errno c).
+
+(* thread life-cycle case (Life.v): a NEW thread runs [lf_pre] (a call tree or a prefix of one, hooks as libmcount
+   took them) and exits; glibc runs the key destructors round by round - libmcount's mtd_dtor first - and in every
+   round the harness' own destructor runs a call tree with the hooks as REQUESTED.  Per operation the usual
+   observation; per round the flags seen after mtd_dtor: (mtd_key value set, recursion marker, dead) *)
+Record life_case := {
+  lf_pre : list op;
+  lf_posts : list call;
+  lf_obs : list (out * nat * list word);
+  lf_flags : list (bool * bool * bool);
+  lf_nslots : nat
+}.
+Definition life_ops (c : life_case) : list lop :=
+  map lift (lf_pre c) ++ List.concat (map (fun t => LTeardown :: map lift (full 1%nat t)) (lf_posts c)).
+Fixpoint run_life_trace (n : nat) (t : life) (ops : list lop) : list (out * nat * list word) * list (bool * bool * bool) :=
+  match ops with
+  | [] => ([], [])
+  | o :: r => let '(t1, u) := run_lop false t o in
+              let '(obs, fl) := run_life_trace n t1 r in
+              ((u, List.length (rs (l_st t1)), snapshot n (l_st t1)) :: obs,
+               match o with LTeardown => (l_key t1, l_marker t1, l_dead t1) :: fl | _ => fl end)
+  end.
+Definition flags_eqb (a b : bool * bool * bool) : bool :=
+  Bool.eqb (fst (fst a)) (fst (fst b)) && Bool.eqb (snd (fst a)) (snd (fst b)) && Bool.eqb (snd a) (snd b).
+Definition life_agrees (c : life_case) : bool :=
+  let '(obs, fl) := run_life_trace (lf_nslots c) life0 (life_ops c) in
+  list_eqb obs_eqb obs (lf_obs c) && list_eqb flags_eqb fl (lf_flags c).
+(* the property on the implementation's own outputs: in every destructor round every return goes to its real caller;
+   once the thread is dead for the tracer the key value stays cleared, the marker stays set, the shadow stack stays
+   empty and no slot holds a trampoline *)
+Fixpoint life_rounds_ok (posts : list call) (flags : list (bool * bool * bool)) (obs : list (out * nat * list word)) : bool :=
+  match posts, flags with
+  | t :: ps, (k, m, d) :: fs =>
+      let n := S (List.length (full 1%nat t)) in
+      let mine := firstn n obs in
+      Nat.eqb (List.length mine) n
+      && ok_returns t (map (fun o => fst (fst o)) (tl mine))
+      && (if d then negb k && m && forallb (fun o => Nat.eqb (snd (fst o)) 0%nat
+                                                     && forallb (fun w => negb (is_tramp w)) (tl (snd o))) mine
+          else true)
+      && life_rounds_ok ps fs (skipn n obs)
+  | [], [] => true
+  | _, _ => false
+  end.
+Definition life_ok (c : life_case) : bool :=
+  life_rounds_ok (lf_posts c) (lf_flags c) (skipn (List.length (lf_pre c)) (lf_obs c)).
 
 (* hook-call case with whole vector registers: registers 0..15 (8 words each) when the stub calls the C wrapper and
    when it returns, while a libc stand-in reached from the hook overwrites every vector register and ends with
